@@ -66,6 +66,39 @@ def c04_1(ctx):
             ctx.refute('order:no-late-insert', fn.site(e), 'nothing is added to the list after the sort', unparse(e))
 
 
+def _iteration_paths_imply(ctx, fn, g, start: int, target: int, required, side_ok, res, limit: int = 2000) -> bool:
+    """On every acyclic way from `start` (the entry of one loop iteration) to `target`, the branch facts collected on the way contain
+    `required` - alone, or in a clause whose other literals satisfy side_ok - or a side_ok literal holds outright."""
+    from engine.lin import to_cnf
+    back = set()
+    todo = [target]
+    while todo:
+        x = todo.pop()
+        if x in back:
+            continue
+        back.add(x)
+        if x != start:
+            todo.extend(g.pred[x])
+    n_paths = 0
+    stack = [(start, [], frozenset([start]))]
+    while stack:
+        cur, facts, seen = stack.pop()
+        if cur == target:
+            n_paths += 1
+            if n_paths > limit:
+                raise AnalysisError('too many paths through one iteration')
+            if not (clause_implies(facts, required, side_ok) or any(len(c) == 1 and side_ok(next(iter(c))) for c in facts)):
+                return False
+            continue
+        for s in g.succ[cur]:
+            if s in seen or s not in back:
+                continue
+            nd = g.nodes[s]
+            lits = to_cnf(g.nodes[nd.test].expr, nd.polarity, res) if nd.kind == 'branch' and g.nodes[nd.test].kind == 'test' else []
+            stack.append((s, facts + lits, seen | {s}))
+    return n_paths > 0
+
+
 def c04_2(ctx):
     ctx.rule('C04.2', 'adjacent byte-producing lines: strict overlap guard, previous line always updated', 3)
     fn = ctx.repo.func(ENGINE)
@@ -86,6 +119,12 @@ def c04_2(ctx):
         cl = facts_at(ctx, fn, u, res)
         want = lit_cmp(ctx, fn, f'{prev}.address + {prev}.byte_size <= {L}.address', res)
         ok = clause_implies(cl, want, lambda l: l == ('isnone', prev, True))
+        if not ok:
+            # `if prev is not None: if overlap: exit` - the fact holds on every way to the update rather than at one dominating test
+            try:
+                ok = _iteration_paths_imply(ctx, fn, g, body_entry, g.node_of(u), want, lambda l: l == ('isnone', prev, True), res)
+            except AnalysisError:
+                ok = False
         ctx.check(ok, 'overlap:strict-guard', fn.site(u),
                   f'reaching the update implies {prev} is None or {prev}.address + {prev}.byte_size <= {L}.address (else abort)',
                   describe_facts(cl))
